@@ -14,7 +14,8 @@ RULE = ('cases = (a) values of every type the extended JSON claims (decimals, da
         'object per run or one object re-used; non-trivial = a non-JSON-native value / a history with a resume or a '
         'delete; distinct = distinct case digest'
         '; round 4: the stream file\'s text is split and joined by the model and compared with the real file and readline()'
-        "; round 8: histories with failing runs (a step in front of the checkpoint raises mid-stream or at exhaustion) followed by complete runs; rows reaching the checkpoint with their keys in another order than the schema's fields")
+        "; round 8: histories with failing runs (a step in front of the checkpoint raises mid-stream or at exhaustion) followed by complete runs; rows reaching the checkpoint with their keys in another order than the schema's fields"
+        '; round 9: resources without fields (rows are empty dicts); the first and the resumed run by an interpreter under an ASCII default text encoding')
 TRUSTED = ['Coq 8.16.1 kernel + vm_compute', 'harness/p07.py printers and oracle',
            'Python scalar text codecs (str(Decimal)/Decimal(str), strftime/strptime, isodate) satisfy parse(print x) = x: hypotheses of C07_ejson_roundtrip, exercised by the unit stream',
            'sources are re-iterable (a one-shot generator source is outside the domain)']
